@@ -266,21 +266,34 @@ def run_real_node(ops):
 
 
 def borderline(ops):
-    """a comparison of the node lands within 2 us of its threshold: float rounding decides, the integer model cannot"""
-    t_acc = t_mag = t_imu = 0; da = dm = 5000; init = False
+    """a comparison of the node lands within 2 us of its threshold: float rounding decides there, the integer model cannot
+    (replays the node's bookkeeping in integers to know the last correction times)"""
+    t_acc = t_mag = t_imu = 0; da = dm = 5000; init = False; have_mag = False
     for line in ops:
         w = line.split()
-        if w[0] == "dtmin":
+        if w[0] == "nreset":
+            init = (w[1] == "1")
+        elif w[0] == "dtmin":
             da, dm = int(w[1]), int(w[2])
-        elif w[0] == "imu":
-            t = int(w[1])
-            if abs((t - t_acc) - (da - 1000)) <= 2 or abs(t - t_imu) <= 0 and False:
-                return True
-            t_imu = t
         elif w[0] == "mag":
-            t = int(w[1])
-            if abs((t - t_mag) - (dm - 1000)) <= 2:
+            t = int(w[1]); have_mag = True
+            if init:
+                if abs((t - t_mag) - (dm - 1000)) <= 2:
+                    return True
+                if t - t_mag >= dm - 1000:
+                    t_mag = t
+        elif w[0] == "imu":
+            t = int(w[1]); dt = t - t_imu; t_imu = t
+            if not init:
+                if have_mag and w[2] == "1":
+                    init = True
+                continue
+            if dt <= 0:
+                continue
+            if abs((t - t_acc) - (da - 1000)) <= 2:
                 return True
+            if t - t_acc >= da - 1000:
+                t_acc = t
     return False
 
 
